@@ -5,7 +5,7 @@
    overlap flag is raised exactly when a used bit is claimed again (C02_overlap_flag).
    The composite statement (layout of whole parameter trees) is correspondence-only. *)
 From Coq Require Import ZArith List Bool.
-From OV Require Import Base.Bytes Base.Wire Generated Model.Str Model.Codec Proofs.BytesProofs Proofs.AtomicProofs Proofs.CodecProps Proofs.FlatProofs Proofs.TreeProofs Proofs.TreeWireProofs Proofs.FieldProofs Proofs.DynFieldProofs Proofs.EopFieldProofs Proofs.PadProofs Proofs.BStructProofs Proofs.MuxProofs Proofs.BitFieldProofs.
+From OV Require Import Base.Bytes Base.Wire Generated Model.Str Model.Codec Proofs.BytesProofs Proofs.AtomicProofs Proofs.CodecProps Proofs.FlatProofs Proofs.TreeProofs Proofs.TreeWireProofs Proofs.FieldProofs Proofs.DynFieldProofs Proofs.EopFieldProofs Proofs.PadProofs Proofs.BStructProofs Proofs.MuxProofs Proofs.MuxSelProofs Proofs.BitFieldProofs.
 Import ListNotations.
 Open Scope Z_scope.
 
@@ -150,6 +150,15 @@ Theorem C02_multiplexer_bytes : forall nm kbl hl cases dflt c rs,
 Proof. intros nm kbl hl cases dflt c rs. cbn [mux_rm r_w]. unfold key_bytes, wire_bytes, key_desc, fbytes. cbn [f_bl f_hl f_bt is_numeric].
        rewrite Bool.andb_true_r. reflexivity. Qed.
 Print Assumptions C02_multiplexer_bytes.
+
+(* for any way of selecting the case: the selected key, then the content (nothing for a case without content) *)
+Theorem C02_multiplexer_selected_bytes : forall nm kbl hl cases dflt c spec cv key rs,
+  r_w (mux_sel_rm nm kbl hl cases dflt c spec key rs) = key_bytes kbl hl key ++ rbytes rs /\
+  r_w (mux_empty_rm nm kbl hl cases dflt c spec cv key) = key_bytes kbl hl key /\
+  key_bytes kbl hl key = (let n := Z.to_nat (nbytes_of kbl 0) in if negb hl then rev (to_be n key) else to_be n key).
+Proof. intros. split; [reflexivity|]. split; [reflexivity|]. unfold key_bytes, wire_bytes, key_desc, fbytes. cbn [f_bl f_hl f_bt is_numeric].
+       rewrite Bool.andb_true_r. reflexivity. Qed.
+Print Assumptions C02_multiplexer_selected_bytes.
 
 (* ---------- bit fields (Proofs/BitFieldProofs.v) ---------- *)
 (* the byte of a structure of bit fields is the OR -- with disjoint ranges: the sum -- of the values shifted to
